@@ -2966,7 +2966,9 @@ impl GlobalInferenceCtx<'_> {
 
                             let ty = self.tys[self.loc][body];
 
-                            if ty.is_pointer() || ty.is_function() {
+                            // a `str` result is copied out as its characters. any other address
+                            // (also one nested inside an aggregate) would dangle at runtime
+                            if !matches!(ty.absolute_ty(), Ty::String) && ty.contains_pointer() {
                                 self.diagnostics.push(TyDiagnostic {
                                     kind: TyDiagnosticKind::ComptimePointer,
                                     file: self.loc.file(),
